@@ -497,16 +497,20 @@ func (c *Ctx) c08Fail(fail *ssa.Function) {
 			if !ok || (b.Op != token.EQL && b.Op != token.NEQ) {
 				return false, false
 			}
-			n, isC := ConstInt(b.Y)
+			bx, by := b.X, b.Y
+			if _, isC := ConstInt(bx); isC {
+				bx, by = by, bx // constant written (or, for a table row, substituted) on the left
+			}
+			n, isC := ConstInt(by)
 			if !isC {
 				return false, false
 			}
 			// X is (a load of) the failResponse free variable
-			x := b.X
+			x := bx
 			if u, isU := x.(*ssa.UnOp); isU {
 				x = u.X
 			}
-			if _, isFV := x.(*ssa.FreeVar); !isFV || !strings.HasSuffix(b.X.Type().String(), ".MWRespondOnFailure") {
+			if _, isFV := x.(*ssa.FreeVar); !isFV || !strings.HasSuffix(bx.Type().String(), ".MWRespondOnFailure") {
 				return false, false
 			}
 			return (n == val) == (b.Op == token.EQL), true
@@ -515,6 +519,9 @@ func (c *Ctx) c08Fail(fail *ssa.Function) {
 		okRow := true
 		traces := w.Traces(fail)
 		for _, t := range traces {
+			if t.End == nil {
+				continue // cut inside a loop (emptying a scratch map): the walk that leaves the loop is judged
+			}
 			var outs []string
 			for _, in := range t.Instrs {
 				call, ok := in.(ssa.CallInstruction)
